@@ -2,6 +2,7 @@ package univ
 
 import (
 	"fmt"
+	"strings"
 
 	"verif/mc/spec"
 )
@@ -103,6 +104,20 @@ func MockSpecs(thorough bool) []*spec.Spec {
 				spec.F("ratio", "double").Opt(), spec.F("tags", "string").Rep().Ex("a", "b")), nil)
 		mk2("proto2_nested", "kind=message,card=optional,syntax=proto2,examples=parsable",
 			spec.M("Resp", spec.Msg("leaf", "Leaf").Opt(), spec.Msg("leaves", "Leaf").Rep(), spec.F("name", "string").Opt()), []*spec.Message{spec.M("Leaf", spec.F("label", "string").Opt().Ex("x", "y"), spec.F("n", "int32").Opt())})
+	}
+	{
+		// the package dimension: a file without a package line and a file with a deeply dotted package (message names are unique
+		// across the harness because a package-less file registers its messages in the global namespace)
+		for _, pk := range [][2]string{{"none", ""}, {"dotted", "vmock.dotted.pkg.v1"}} {
+			pre := "Np" + strings.ToUpper(pk[0][:1]) + pk[0][1:]
+			resp := spec.M(pre+"Resp", spec.F("greeting", "string").Ex("hello", "salut"), spec.F("count", "int64").Ex("3", "4"), spec.Msg("detail", pre+"Resp.Detail")).
+				WithNested(spec.M("Detail", spec.F("code", "string").Ex("c1", "c2")))
+			f := &spec.File{Messages: []*spec.Message{spec.M(pre+"Req", spec.F("id", "string")), resp},
+				Services: []*spec.Service{spec.Svc(pre+"MockedService", "/m"+pk[0], spec.RPC("Fetch", pre+"Req", pre+"Resp", "POST", "/fetch"))}}
+			sp := spec.One("mock_package_"+pk[0], f)
+			sp.Files[0].Package = pk[1]
+			out = append(out, withCell(sp, "mock/kind=message,card=singular,package="+pk[0]+",examples=parsable", "extended", "valid", "mock"))
+		}
 	}
 	mk("examples_quote", "kind=string,card=singular,examples=quote", spec.M("Resp", spec.F("val", "string").Ex(`say "hi"`, `back\slash`)), nil, nil)
 	return out
